@@ -195,6 +195,8 @@ func runFsproto(p *Program, only string) (*fsRules, []fsRun) {
 }
 
 func resetCaches() {
+	resetTerms()
+	ghostKeyTerms = map[string]*Term{}
 	fsCache = nil
 	compactCache = nil
 	writeSetCache = nil
@@ -243,58 +245,15 @@ func thorough(prop, repo, verif string, r *Report, f checkFunc, p *Program) {
 	fired := 0
 	for _, patch := range seeds {
 		id := filepath.Base(filepath.Dir(patch))
-		res := map[string]interface{}{"seed": id}
-		tmp, err := os.MkdirTemp("", "rsa-selftest-")
-		if err != nil {
-			res["skipped"] = err.Error()
-			results = append(results, res)
-			continue
-		}
-		func() {
-			defer os.RemoveAll(tmp)
-			out, err := exec.Command("git", "-C", repo, "ls-files").Output()
-			if err != nil {
-				res["skipped"] = "git ls-files: " + err.Error()
-				return
-			}
-			for _, rel := range strings.Fields(string(out)) {
-				b, err := os.ReadFile(filepath.Join(repo, rel))
-				if err != nil {
-					continue
-				}
-				os.MkdirAll(filepath.Dir(filepath.Join(tmp, rel)), 0o755)
-				os.WriteFile(filepath.Join(tmp, rel), b, 0o644)
-			}
+		res := runVariant(prop, repo, f, func(tmp string) string {
 			ap := exec.Command("git", "apply", patch)
 			ap.Dir = tmp
 			if msg, err := ap.CombinedOutput(); err != nil {
-				res["skipped"] = "patch no longer applies to the current tree: " + strings.TrimSpace(string(msg))
-				return
+				return "patch no longer applies to the current tree: " + strings.TrimSpace(string(msg))
 			}
-			func() {
-				defer func() {
-					if e := recover(); e != nil {
-						res["analysis_error"] = fmt.Sprint(e)
-						res["fired"] = true // the analysis refuses the tree: not a silent pass
-					}
-				}()
-				resetCaches()
-				p2 := loadProgram(tmp, "", nil)
-				r2 := newReport(prop, "quick", 0)
-				f(p2, r2)
-				var rules []string
-				rs := map[string]bool{}
-				for _, v := range r2.Viol {
-					if !rs[v.Rule] {
-						rs[v.Rule] = true
-						rules = append(rules, v.Rule)
-					}
-				}
-				sort.Strings(rules)
-				res["fired"] = len(r2.Viol) > 0 || len(r2.Floors) > 0
-				res["rules"] = rules
-			}()
-		}()
+			return ""
+		})
+		res["seed"] = id
 		if b, _ := res["fired"].(bool); b {
 			fired++
 		} else if _, sk := res["skipped"]; !sk {
@@ -302,8 +261,98 @@ func thorough(prop, repo, verif string, r *Report, f checkFunc, p *Program) {
 		}
 		results = append(results, res)
 	}
+	// (3) regression on repaired defects: every fix: commit recorded for this
+	// property is reverse-applied to a scratch copy of the current tree; the
+	// defect it repaired must be reported again there
+	var regress []map[string]interface{}
+	nReg, nRegFired := 0, 0
+	for _, fx := range loadKnown(verif).Fixed {
+		if fx.Property != prop || fx.Commit == "" {
+			continue
+		}
+		nReg++
+		commit := fx.Commit
+		res := runVariant(prop, repo, f, func(tmp string) string {
+			diff, err := exec.Command("git", "-C", repo, "show", "--format=", commit, "--", ".", ":(exclude)*_test.go").Output()
+			if err != nil || len(diff) == 0 {
+				return "commit not available in the repository under analysis"
+			}
+			ap := exec.Command("git", "apply", "-R", "-")
+			ap.Dir = tmp
+			ap.Stdin = strings.NewReader(string(diff))
+			if msg, err := ap.CombinedOutput(); err != nil {
+				return "the fix can no longer be reverted in isolation (later changes touch the same lines): " + strings.TrimSpace(string(msg))
+			}
+			return ""
+		})
+		res["reverted_fix"] = commit
+		res["what"] = fx.What
+		if b, _ := res["fired"].(bool); b {
+			nRegFired++
+		} else if _, sk := res["skipped"]; !sk {
+			fmt.Printf("REGRESSION-MISS property=%s commit=%s\n", prop, commit)
+		}
+		regress = append(regress, res)
+	}
+	r.Stats["fix_regression.commits"] = nReg
+	r.Stats["fix_regression.reported_again"] = nRegFired
+	if len(regress) > 0 {
+		r.Samples = append(r.Samples, map[string]interface{}{"fix_regression": regress})
+	}
 	resetCaches()
 	r.Stats["selftest.seeds"] = len(seeds)
 	r.Stats["selftest.fired"] = fired
 	r.Samples = append(r.Samples, map[string]interface{}{"mutation_sensitivity": results})
+}
+
+// runVariant copies the tracked files of the tree under analysis to a scratch
+// directory, lets edit change the copy, and runs the property's analysis on it
+// in-process.  The copy is removed before returning.
+func runVariant(prop, repo string, f checkFunc, edit func(tmp string) string) map[string]interface{} {
+	res := map[string]interface{}{}
+	tmp, err := os.MkdirTemp("", "rsa-selftest-")
+	if err != nil {
+		res["skipped"] = err.Error()
+		return res
+	}
+	defer os.RemoveAll(tmp)
+	out, err := exec.Command("git", "-C", repo, "ls-files").Output()
+	if err != nil {
+		res["skipped"] = "git ls-files: " + err.Error()
+		return res
+	}
+	for _, rel := range strings.Fields(string(out)) {
+		b, err := os.ReadFile(filepath.Join(repo, rel))
+		if err != nil {
+			continue
+		}
+		os.MkdirAll(filepath.Dir(filepath.Join(tmp, rel)), 0o755)
+		os.WriteFile(filepath.Join(tmp, rel), b, 0o644)
+	}
+	if why := edit(tmp); why != "" {
+		res["skipped"] = why
+		return res
+	}
+	defer func() {
+		if e := recover(); e != nil {
+			res["analysis_error"] = fmt.Sprint(e)
+			res["fired"] = true // the analysis refuses the tree: not a silent pass
+		}
+	}()
+	resetCaches()
+	p2 := loadProgram(tmp, "", nil)
+	r2 := newReport(prop, "quick", 0)
+	f(p2, r2)
+	var rules []string
+	rs := map[string]bool{}
+	for _, v := range r2.Viol {
+		if !rs[v.Rule] {
+			rs[v.Rule] = true
+			rules = append(rules, v.Rule)
+		}
+	}
+	sort.Strings(rules)
+	res["fired"] = len(r2.Viol) > 0 || len(r2.Floors) > 0
+	res["rules"] = rules
+	return res
 }
